@@ -78,6 +78,11 @@ def gen_tasks(tier, seed):
                  ("kMinPathError", arb, {"k": k, "weight_type": "int"}), ("kLeastAbsErrors", arb, {"k": min(2, k), "weight_type": "int"}),
                  ("kLeastAbsErrors", arb, {"k": k, "weight_type": "int", "subpath_constraints": [sp]}),
                  ("kPathCover", es, {"k": k}), ("MinPathCover", es, {})]
+        # ignored edges (stale value off by one): options must not let ignored edges constrain the solution
+        for ex in es[:2]:
+            stale = [(u, v, f + 1 if (u, v) == ex else f) for (u, v, f) in wedges]
+            if any(f for (u, v, f) in stale if (u, v) != ex):
+                insts.append(("MinFlowDecomp", stale, {"weight_type": "int", "elements_to_ignore": [list(ex)]}))
         # fractional coverage: a 3-edge constraint whose middle edge is heavy and whose end edges are light, k = 1
         # (the best route uses only the interior edge; every 3-edge subpath in turn)
         for R in [c for c in I.contiguous_subpaths(es, 3) if len(c) == 3][: (3 if tier == "quick" else 12)]:
@@ -115,11 +120,16 @@ def gen_tasks(tier, seed):
     for cls, kw in (("MinFlowDecompCycles", {"weight_type": "int"}), ("kFlowDecompCycles", {"k": 1, "weight_type": "int"}), ("kLeastAbsErrorsCycles", {"k": 1, "weight_type": "int"})):
         for vec in vectors(cls, tier, rng):
             tasks.append({"name": "scc_edge_twice_in_safe_walk", "cls": cls, "edges": twice, "kwargs": kw, "vec": vec})
+    # node-weighted minimum flow decompositions (the lower-bound options must cope with the connector edges of the expansion)
+    for nm, es_, nf_ in (("node_path3", [("a", "b"), ("b", "c")], {"a": 5, "b": 5, "c": 5}), ("node_diamond", [("a", "b"), ("a", "c"), ("b", "d"), ("c", "d")], {"a": 5, "b": 2, "c": 3, "d": 5})):
+        for cls in ("MinFlowDecomp", "MinFlowDecompCycles"):
+            for vec in vectors(cls, tier, rng):
+                tasks.append({"name": nm, "cls": cls, "edges": es_, "node_flow": nf_, "kwargs": {"weight_type": "int", "flow_attr_origin": "node"}, "vec": vec})
     # group by (instance, class): one task evaluates all vectors against the baseline
     groups = {}
     for t in tasks:
         key = (t["name"], t["cls"], repr(t["kwargs"]))
-        groups.setdefault(key, {"name": t["name"], "cls": t["cls"], "edges": t["edges"], "kwargs": t["kwargs"], "vecs": []})
+        groups.setdefault(key, {"name": t["name"], "cls": t["cls"], "edges": t["edges"], "node_flow": t.get("node_flow"), "kwargs": t["kwargs"], "vecs": []})
         groups[key]["vecs"].append(t["vec"])
     out = list(groups.values())
     for i, t in enumerate(out):
@@ -131,7 +141,7 @@ def _run_vec(task, vec):
     import flowpaths as fp
     kw = dict(task["kwargs"])
     kw["optimization_options"] = dict(vec)
-    t = {"cls": task["cls"], "edges": task["edges"], "kwargs": kw}
+    t = {"cls": task["cls"], "edges": task["edges"], "kwargs": kw, "node_flow": task.get("node_flow")}
     old = (fp.MinFlowDecomp.subgraph_lowerbound_size, fp.MinFlowDecomp.subgraph_lowerbound_shift)
     fp.MinFlowDecomp.subgraph_lowerbound_size, fp.MinFlowDecomp.subgraph_lowerbound_shift = 3, 2
     try:
